@@ -117,6 +117,10 @@ type Daemon struct {
 	// ends at the first frame newer than until. A frame that cannot be parsed ends the filtering
 	// (the rest is served as it is).
 	HonourWindow bool
+	// IgnoreUntil, with HonourWindow, leaves the end of the log alone: the product asks for
+	// until = the whole second of the end (C02 states that truncation), so the real daemon
+	// withholds the last fraction of a second; checks of other properties look at the start only.
+	IgnoreUntil bool
 
 	// Waves gives, per ContainerList call, how many ContainerLogs calls are expected to
 	// follow concurrently; Order gives, per wave, the completion order as a permutation of
@@ -340,7 +344,7 @@ func (d *Daemon) ContainerLogs(ctx context.Context, id string, opts container.Lo
 		if err1 != nil || err2 != nil {
 			return nil, errdefs.InvalidParameter(fmt.Errorf("Error response from daemon: invalid since/until %q/%q", opts.Since, opts.Until))
 		}
-		data = filterLog(data, since, until, opts.Until != "")
+		data = filterLog(data, since, until, opts.Until != "" && !d.IgnoreUntil)
 	}
 	d.mu.Lock()
 	d.opened++
